@@ -67,7 +67,8 @@ def gen(tier, rng):
         for k in [0, 1, 63, 64, 65, bits - 1, bits, bits + 1, bits + 64, 1000, 1 << 31, U32MAX]:
             for a in [0, 1, 2, 3, (1 << bits) - 1, value(rng, n)]:
                 yield f'c11.u.inv_mod2k {n} {hx(a)} {k}'
-                if k <= bits + 64 or a in (0, 1, 3):
+                # variable time in k by contract: keep k small enough for the watchdog (k rounds of a Uint shift)
+                if k <= bits + 64 or (k <= 1000 and a in (0, 1, 3)):
                     yield f'c11.u.inv_mod2k_vartime {n} {hx(a)} {k}'
             if k <= 4096:
                 yield f'c11.b.inv_mod2k {n} 3 {k}'
